@@ -89,6 +89,10 @@ def as_sstr(I, v):
         return v
     if isinstance(v, SString):
         return SStr(v.b, v.alloc, 0)
+    if isinstance(v, Opaque) and v.tag in ('formatted', 'fmtargs'):
+        # text produced by format!: opaque (no property depends on message text); a fixed
+        # placeholder that equals no ordinary string
+        return SStr(tuple(b'\xff<formatted text>'), -2, 0)
     raise EngineError('expected string, got %r' % (v,))
 
 
